@@ -92,8 +92,12 @@ def cmd_run(name, ids):
             print(n, 'PATCH DOES NOT APPLY', out[-200:]); continue
         res = {}
         try:
-            for pid in ids:
-                rc, out = sh('./check %s --tier quick' % pid, VERIF, timeout=900)
+            from concurrent.futures import ThreadPoolExecutor
+            def one(pid):
+                return pid, sh('./check %s --tier quick' % pid, VERIF, timeout=1800)
+            with ThreadPoolExecutor(max_workers=6) as ex:
+                outs = list(ex.map(one, ids))
+            for pid, (rc, out) in outs:
                 fired = [l for l in out.split('\n') if l.startswith('VIOLATION')]
                 inst = [l.strip() for l in out.split('\n') if l.startswith('  instance')]
                 res[pid] = {'exit': rc, 'violations': len(fired), 'instances': inst[:5],
@@ -108,8 +112,9 @@ def cmd_run(name, ids):
         for p in caught:
             for i in res[p]['instances'][:2]: print('     ', p, i)
     # restore evidence for the unchanged tree
-    for pid in ids:
-        sh('./check %s --tier quick' % pid, VERIF, timeout=900)
+    from concurrent.futures import ThreadPoolExecutor
+    with ThreadPoolExecutor(max_workers=6) as ex:
+        list(ex.map(lambda pid: sh('./check %s --tier quick' % pid, VERIF, timeout=1800), ids))
     return 0
 
 
